@@ -167,42 +167,70 @@ def oracle_values(ctx):
             n = rng.randint(1, 2)
             x = so.standard_poly_monomials(n)
             # even dominant terms + odd / mixed lower-order terms: bounded below
-            p = sum(float(rng.choice([1, 2])) * x[i] ** 4 for i in range(n)) + float(rng.choice([1, -1, 2, -3])) * x[0] \
-                + (float(rng.choice([1, -2])) * x[0] * x[n - 1] if n > 1 else float(rng.choice([1, -2])) * x[0] ** 3) \
-                + float(rng.choice([0, 1, -1])) * x[n - 1] ** 2 + float(rng.choice([0, 1, 3]))
+            p = sum(float(rng.choice([1, 2])) * x[i] ** 4 for i in range(n)) + float(rng.choice([1, -1, 2, -3])) * x[0]
+            if trial >= 2:      # the first two instances are the sparse ones: x0^4 (+ x1^4) + c x0
+                if rng.random() < 0.6:
+                    p = p + (float(rng.choice([1, -2])) * x[0] * x[n - 1] if n > 1 else float(rng.choice([1, -2])) * x[0] ** 3)
+                if rng.random() < 0.6:
+                    p = p + float(rng.choice([1, -1])) * x[n - 1] ** 2
+                p = p + float(rng.choice([0, 1, 3]))
             js = {'p': str(c12.canon(p))}
             vals = {}
             for form in ('primal', 'dual'):
-                for ell in (0, 1):
+                for ell, sell in ((0, 0), (1, 0), (0, 1), (1, 1)):
                     try:
-                        vals[(form, ell)] = sp.poly_relaxation(p, form=form, poly_ell=ell).solve(verbose=False)
+                        vals[('free', form, ell, sell)] = sp.poly_relaxation(p, form=form, poly_ell=ell, sigrep_ell=sell).solve(verbose=False)
                     except Exception as e:
-                        vals[(form, ell)] = ('error', repr(e)[:60])
+                        vals[('free', form, ell, sell)] = ('error', repr(e)[:60])
             g = [4 - sum(x[i] ** 2 for i in range(n))]
             for form in ('primal', 'dual'):
+                for ell in (0, 1):
+                    try:
+                        vals[('con', form, ell, 0)] = sp.poly_constrained_relaxation(p, g, [], form=form, p=0, q=1, ell=ell).solve(verbose=False)
+                    except Exception as e:
+                        vals[('con', form, ell, 0)] = ('error', repr(e)[:60])
+            # the constrained builder without constraints, with a modulator
+            for form in ('primal', 'dual'):
                 try:
-                    vals[('con', form)] = sp.poly_constrained_relaxation(p, g, [], form=form, p=0, q=1, ell=0).solve(verbose=False)
+                    vals[('free', form, 'constrained-builder', 1)] = sp.poly_constrained_relaxation(p, [], [], form=form, p=0, q=1, ell=1).solve(verbose=False)
                 except Exception as e:
-                    vals[('con', form)] = ('error', repr(e)[:60])
+                    vals[('free', form, 'constrained-builder', 1)] = ('error', repr(e)[:60])
+            # a PolyDomain in which the last coordinate is not constrained at all: X = {x : |x0| <= 1}, with an objective whose
+            # minimum over X lies on the boundary of X
+            p2 = x[n - 1] ** 4 + float(rng.choice([-4, 4, -2])) * x[0] * x[n - 1] ** 2 + float(rng.choice([0, 1])) if n > 1 else p
+            js['p2'] = str(c12.canon(p2))
+            try:
+                X = sp.infer_domain(p2, [1 - x[0] ** 2], [])
+                for form in ('primal', 'dual'):
+                    vals[('dom', form, 0, 0)] = sp.poly_relaxation(p2, X=X, form=form).solve(verbose=False)
+                    vals[('domcon', form, 0, 0)] = sp.poly_constrained_relaxation(p2, [1 - x[0] ** 2], [], X, form=form, p=0, q=1, ell=0).solve(verbose=False)
+            except Exception as e:
+                vals[('dom', 'primal', 0, 0)] = ('error', repr(e)[:60])
             ctx.evaluations += len(vals)
             ctx.count('value_checks', 'instances')
-            ub = math.inf
-            ubc = math.inf
-            for pt in itertools.product([-2.0, -1.0, -0.5, 0.0, 0.5, 1.0, 2.0], repeat=n):
+            ub = {'free': math.inf, 'con': math.inf, 'dom': math.inf, 'domcon': math.inf}
+            grid = [-2.0, -1.5, -1.0, -0.75, -0.5, -0.25, 0.0, 0.25, 0.5, 0.75, 1.0, 1.5, 2.0]
+            for pt in itertools.product(grid, repeat=n):
                 pv = float(p(np.array(pt)))
-                ub = min(ub, pv)
+                ub['free'] = min(ub['free'], pv)
                 if sum(t * t for t in pt) <= 4:
-                    ubc = min(ubc, pv)
+                    ub['con'] = min(ub['con'], pv)
+                if abs(pt[0]) <= 1:
+                    ub['dom'] = min(ub['dom'], float(p2(np.array(pt))))
+                    ub['domcon'] = ub['dom']
             for key, (st, val) in vals.items():
                 if st != 'solved' or not isinstance(val, float) or not math.isfinite(val):
                     continue
-                bound = ubc if key[0] == 'con' else ub
+                bound = ub[key[0]]
                 if val > bound + 1e-4 * (1 + abs(bound)):
-                    return ('%s value %r exceeds p at a sampled real point (min over the grid incl. negative and zero coordinates: %r)' % (key, val, bound), js)
-            for ell in (0, 1):
-                a, b = vals[('primal', ell)], vals[('dual', ell)]
-                if a[0] == b[0] == 'solved' and math.isfinite(a[1]) and math.isfinite(b[1]) and a[1] > b[1] + 1e-4 * (1 + abs(b[1])):
-                    return ('primal value %r exceeds dual value %r at poly_ell=%d' % (a[1], b[1], ell), js)
+                    return ('%s value %r exceeds p at a real feasible point (min over a grid incl. negative and zero coordinates: %r)' % (key, val, bound), js)
+            for key in vals:
+                if key[1] != 'primal':
+                    continue
+                a, b = vals[key], vals.get((key[0], 'dual') + key[2:], ('none', 0))
+                if a[0] == b[0] == 'solved' and isinstance(a[1], float) and isinstance(b[1], float) and math.isfinite(a[1]) and math.isfinite(b[1]) \
+                        and a[1] > b[1] + 1e-4 * (1 + abs(b[1])):
+                    return ('primal value %r exceeds dual value %r for %s' % (a[1], b[1], key), js)
     return None
 
 
